@@ -388,7 +388,7 @@ func stmtIDBytes(cmd byte, id uint32) []byte {
 }
 
 // compareRelay applies the relay-identity oracle to everything recorded on connection 1 of the server and on the client.
-func compareRelay(r *ev.Run, srv *fakemysql.Server, rec *proxyrig.MyRec, prefixOnly bool, sigTail string, detail func(map[string]interface{}) map[string]interface{}) bool {
+func compareRelay(r *ev.Run, srv *fakemysql.Server, rec *proxyrig.MyRec, prefixOnly bool, cacheMetadata bool, sigTail string, detail func(map[string]interface{}) map[string]interface{}) bool {
 	sent := rec.RawOut()
 	maxWait := 2000
 	if prefixOnly {
@@ -427,21 +427,29 @@ func compareRelay(r *ev.Run, srv *fakemysql.Server, rec *proxyrig.MyRec, prefixO
 	r2, d2 := cut(recv, dbOut)
 	if !bytes.Equal(r2, d2) {
 		at := firstDiff(recv, dbOut)
-		r.Violation(fmt.Sprintf("mysql caps relay: database->client stream altered: at-message=%s %s", capServerMsgAt(srv, at), sigTail), detail(map[string]interface{}{"offset": at, "db_sent_len": len(dbOut), "client_got_len": len(recv), "db_sent_at": ev.Hex(window(dbOut, at)), "client_got_at": ev.Hex(window(recv, at))}))
+		r.Violation(fmt.Sprintf("mysql caps relay: database->client stream altered: at-message=%s %s", capServerMsgAt(srv, at, cacheMetadata), sigTail), detail(map[string]interface{}{"offset": at, "db_sent_len": len(dbOut), "client_got_len": len(recv), "db_sent_at": ev.Hex(window(dbOut, at)), "client_got_at": ev.Hex(window(recv, at))}))
 		return false
 	}
 	return true
 }
 
-// capServerMsgAt names the kind of the server message that contains offset `at` of the database's output on connection 1.
-func capServerMsgAt(srv *fakemysql.Server, at int) string {
+// capServerMsgAt names the kind of the server message that contains offset `at` of the database's output on connection 1;
+// rows of a result set that was sent without column definitions (MARIADB_CLIENT_CACHE_METADATA) are marked.
+func capServerMsgAt(srv *fakemysql.Server, at int, cacheMetadata bool) string {
 	pos := 0
+	skipped := false
 	for _, m := range srv.SentLog() {
 		if m.Conn != 1 {
 			continue
 		}
+		if m.Kind == "ColumnCount" {
+			skipped = cacheMetadata && len(m.Payload) >= 2 && m.Payload[len(m.Payload)-1] == 0
+		}
 		size := len(m.Payload) + 4*m.Packets
 		if at < pos+size {
+			if skipped && (m.Kind == "BinaryRow" || m.Kind == "TextRow") {
+				return m.Kind + "/metadata-skipped"
+			}
 			return m.Kind
 		}
 		pos += size
@@ -489,6 +497,7 @@ func capsRelaySession(r *ev.Run, rng *gen.Rand, sidx, n int) {
 		return
 	}
 	s.c = c
+	c.SetWatchdog(4 * time.Second) // expiry is inconclusive, never a verdict (the bytes relayed until then are still compared)
 	ext := c.Ext&fakemysql.MariaExtendedTypeInfo != 0
 	if ext != prof.extBoth() || (c.Ext&fakemysql.MariaCacheMetadata != 0) != prof.cacheBoth() || g.MariaDB != prof.Maria {
 		r.Inconclusive("mysql caps relay: negotiated capabilities are not the profile's (rig)")
@@ -540,6 +549,7 @@ func capsRelaySession(r *ev.Run, rng *gen.Rand, sidx, n int) {
 			s.do(stmtIDBytes(fakemysql.ComStmtClose, pok.StmtID), "none")
 		}
 	}
+	unexecuted := false
 	for i := 0; i < steps && s.ok; i++ {
 		x := rng.Intn(100)
 		switch {
@@ -562,7 +572,7 @@ func capsRelaySession(r *ev.Run, rng *gen.Rand, sidx, n int) {
 			s.last = "generated-text"
 			s.script = append(s.script, "COM_QUERY: "+clip(st.SQL, 120))
 			s.do(append([]byte{fakemysql.ComQuery}, st.SQL...), "query")
-		case x < 58:
+		case x < 56:
 			s.last = "evaluated-binary-resultset"
 			ex := 1 + rng.Intn(3)
 			var sql string
@@ -576,7 +586,41 @@ func capsRelaySession(r *ev.Run, rng *gen.Rand, sidx, n int) {
 			}
 			s.script = append(s.script, fmt.Sprintf("COM_STMT_PREPARE: %s, COM_STMT_EXECUTE x%d", sql, ex))
 			prepared(sql, params, ex, rng.Intn(3) > 0)
-		case x < 66:
+		case x < 63:
+			// a prepared statement that is not executed (right away): the command that follows is one Acra only relays
+			var sql string
+			switch rng.Intn(3) {
+			case 0:
+				sql = fmt.Sprintf("select rich_%d(?)", rng.Intn(nScripts))
+			case 1:
+				sql = "select id, t, b, n from plain where id <> ? order by id"
+			default:
+				sql = "select n, b, id from plain order by id"
+			}
+			next := []string{"ping", "init-db", "reset-connection", "statistics", "field-list"}[rng.Intn(5)]
+			closeFirst := rng.Intn(3) == 0
+			s.last = "prepare-then-" + next
+			s.script = append(s.script, fmt.Sprintf("COM_STMT_PREPARE: %s (not executed), close=%v, then %s", sql, closeFirst, next))
+			fr := s.do(append([]byte{fakemysql.ComStmtPrepare}, sql...), "prepare")
+			if !s.ok || len(fr) == 0 {
+				break
+			}
+			if pok, err := fakemysql.DecodePrepareOK(fr[0].Payload); err == nil && closeFirst {
+				s.do(stmtIDBytes(fakemysql.ComStmtClose, pok.StmtID), "none")
+			}
+			switch next {
+			case "ping":
+				s.do([]byte{fakemysql.ComPing}, "single")
+			case "init-db":
+				s.do(append([]byte{fakemysql.ComInitDB}, "db2"...), "single")
+			case "reset-connection":
+				s.do([]byte{fakemysql.ComResetConn}, "single")
+			case "statistics":
+				s.do([]byte{fakemysql.ComStatistics}, "single")
+			default:
+				s.do(append([]byte{fakemysql.ComFieldList}, "plain\x00"...), "fieldlist")
+			}
+		case x < 68:
 			s.last = "ok-with-info-and-session-state"
 			s.script = append(s.script, "COM_QUERY: set names utf8mb4")
 			s.do(append([]byte{fakemysql.ComQuery}, "set names utf8mb4"...), "query")
@@ -605,6 +649,17 @@ func capsRelaySession(r *ev.Run, rng *gen.Rand, sidx, n int) {
 			s.script = append(s.script, "COM_STATISTICS")
 			s.do([]byte{fakemysql.ComStatistics}, "single")
 		}
+		// commands Acra only relays do not choose a response handler: they meet what the unexecuted prepare left behind
+		switch {
+		case strings.HasPrefix(s.last, "prepare-then-"):
+			unexecuted = true
+		case s.last == "ping" || s.last == "init-db" || s.last == "reset-connection" || s.last == "statistics" || s.last == "field-list":
+			if unexecuted {
+				s.last += "/after-unexecuted-prepare"
+			}
+		default:
+			unexecuted = false
+		}
 		kinds[s.last] = true
 	}
 	if s.ok {
@@ -613,7 +668,7 @@ func capsRelaySession(r *ev.Run, rng *gen.Rand, sidx, n int) {
 		c.Abort()
 	}
 	if s.timeout {
-		if !compareRelay(r, srv, c.MyRec, true, sigTail, s.detail) {
+		if !compareRelay(r, srv, c.MyRec, true, prof.cacheBoth(), sigTail, s.detail) {
 			return
 		}
 		r.Inconclusive(fmt.Sprintf("watchdog: no reply through acra (mysql caps relay session %d, %s, %s)", sidx, prof.Key(), s.last))
@@ -621,7 +676,7 @@ func capsRelaySession(r *ev.Run, rng *gen.Rand, sidx, n int) {
 		return
 	}
 	if !s.ok {
-		if !compareRelay(r, srv, c.MyRec, true, sigTail, s.detail) {
+		if !compareRelay(r, srv, c.MyRec, true, prof.cacheBoth(), sigTail, s.detail) {
 			return
 		}
 		r.Violation(fmt.Sprintf("mysql caps relay: connection broke during a valid message sequence: last=%s %s", s.last, sigTail), s.detail(nil))
@@ -630,7 +685,7 @@ func capsRelaySession(r *ev.Run, rng *gen.Rand, sidx, n int) {
 	if un := srv.Unsupported(); len(un) > 0 {
 		r.Count("mysql_rig_inconclusive_statement_not_evaluable", int64(len(un)))
 	}
-	if !compareRelay(r, srv, c.MyRec, false, sigTail, s.detail) {
+	if !compareRelay(r, srv, c.MyRec, false, prof.cacheBoth(), sigTail, s.detail) {
 		return
 	}
 	// the login packet the database received must also be the layout the profile asked for (rig self-check)
@@ -1104,6 +1159,7 @@ type capsJudge struct {
 	prepDB, prepCl, curDB, curCl []fakemysql.ColDef
 	phase                        string
 	paramIdx                     int
+	skipped                      bool // the current result set came without column definitions
 }
 
 // feed judges the next delivered packet; false stops the exchange (a violation or a rig problem was recorded).
@@ -1152,6 +1208,7 @@ func (j *capsJudge) judge(f fakemysql.Frame) bool {
 			r.Inconclusive("mysql caps shape: column count packet of the database does not parse (rig)")
 			return false
 		}
+		j.skipped = !follows
 		if follows {
 			j.curDB, j.curCl = nil, nil
 		} else {
@@ -1184,6 +1241,10 @@ func (j *capsJudge) judge(f fakemysql.Frame) bool {
 		}
 	case "TextRow", "BinaryRow":
 		curCl, curDB := j.curCl, j.curDB
+		kind := d.Kind
+		if j.skipped {
+			kind += "/metadata-skipped"
+		}
 		var a, b []fakemysql.Field
 		var errA, errB error
 		if d.Kind == "TextRow" {
@@ -1198,17 +1259,17 @@ func (j *capsJudge) judge(f fakemysql.Frame) bool {
 			return false
 		}
 		if errA != nil {
-			r.Violation(s.sig("row delivered to the client does not re-parse against the column definitions the client holds", d.Kind, proto), s.detail(map[string]interface{}{"err": errA.Error(), "client": ev.Hex(f.Payload), "db": ev.Hex(d.Payload), "client_defs": fmt.Sprintf("%+v", typesOf(curCl)), "db_defs": fmt.Sprintf("%+v", typesOf(curDB))}))
+			r.Violation(s.sig("row delivered to the client does not re-parse against the column definitions the client holds", kind, proto), s.detail(map[string]interface{}{"err": errA.Error(), "client": ev.Hex(f.Payload), "db": ev.Hex(d.Payload), "client_defs": fmt.Sprintf("%+v", typesOf(curCl)), "db_defs": fmt.Sprintf("%+v", typesOf(curDB))}))
 			return false
 		}
 		if len(a) != len(b) {
-			r.Violation(s.sig("row field count changed", d.Kind, proto), s.detail(map[string]interface{}{"db": len(b), "client": len(a)}))
+			r.Violation(s.sig("row field count changed", kind, proto), s.detail(map[string]interface{}{"db": len(b), "client": len(a)}))
 			return false
 		}
 		good := true
 		for fi := range a {
 			if a[fi].Null != b[fi].Null {
-				r.Violation(s.sig("NULL marker of a row field changed", d.Kind, proto), s.detail(map[string]interface{}{"field": fi, "db_null": b[fi].Null}))
+				r.Violation(s.sig("NULL marker of a row field changed", kind, proto), s.detail(map[string]interface{}{"field": fi, "db_null": b[fi].Null}))
 				good = false
 				continue
 			}
@@ -1219,7 +1280,7 @@ func (j *capsJudge) judge(f fakemysql.Frame) bool {
 				continue
 			}
 			if !bytes.Equal(a[fi].Data, b[fi].Data) {
-				r.Violation(s.sig("row field of an unconfigured column changed", d.Kind, proto), s.detail(map[string]interface{}{"field": fi, "db": ev.Hex(b[fi].Data), "client": ev.Hex(a[fi].Data)}))
+				r.Violation(s.sig("row field of an unconfigured column changed", kind, proto), s.detail(map[string]interface{}{"field": fi, "db": ev.Hex(b[fi].Data), "client": ev.Hex(a[fi].Data)}))
 				good = false
 			} else {
 				r.Count("mysql_caps_unconfigured_fields_identical", 1)
@@ -1251,9 +1312,9 @@ func typesOf(defs []fakemysql.ColDef) []byte {
 func capsLayer(r *ev.Run, only int) {
 	t0 := time.Now()
 	defer func() { r.Extra("mysql_caps_layer_wall_s", time.Since(t0).Seconds()) }()
-	r.Rule += " || MySQL capability / metadata matrix (scripted client and fake server on the harness codec): handshake flavour MySQL / MariaDB, CLIENT_DEPRECATE_EOF, MARIADB_CLIENT_EXTENDED_TYPE_INFO and MARIADB_CLIENT_CACHE_METADATA announced by both sides / one side / nobody (metadata skipped always / every second execution / never), CLIENT_SESSION_TRACK OK packets, HandshakeResponse41 in every layout (CONNECT_WITH_DB, PLUGIN_AUTH, length-encoded / one-byte-length / NUL-terminated auth data of 0..300 bytes, CONNECT_ATTRS), column definitions with unusual but valid metadata (names of 250/251/300/1024 bytes, empty schema / table / original names, charsets incl. two-byte ids, decimals, flags, extended type info of zero / one / several entries with block lengths 0/2/3/250/251/>251, COM_FIELD_LIST default values NULL / empty / >= 251 bytes). phase A' (empty / unrelated configuration): relay identity of both byte streams. phase B' (table with encrypted columns declared str/bytes/int32/int64 by data_type or data_type_db_identifier, so that Acra re-describes result columns and placeholders): text and binary result sets and prepare responses scripted at the database; every delivered definition re-parses under the negotiated capabilities, keeps catalog..org_name, the extended type info block with its length prefix and the bytes after the fixed part; columns without type configuration byte-identical; rows re-parse against the definitions the client holds (those of the prepare response when metadata is skipped), field counts, NULL markers and unconfigured fields kept"
+	r.Rule += " || MySQL capability / metadata matrix (scripted client and fake server on the harness codec): handshake flavour MySQL / MariaDB, CLIENT_DEPRECATE_EOF, MARIADB_CLIENT_EXTENDED_TYPE_INFO and MARIADB_CLIENT_CACHE_METADATA announced by both sides / one side / nobody (metadata skipped always / every second execution / never), CLIENT_SESSION_TRACK OK packets, HandshakeResponse41 in every layout (CONNECT_WITH_DB, PLUGIN_AUTH, length-encoded / one-byte-length / NUL-terminated auth data of 0..300 bytes, CONNECT_ATTRS), column definitions with unusual but valid metadata (names of 250/251/300/1024 bytes, empty schema / table / original names, charsets incl. two-byte ids, decimals, flags, extended type info of zero / one / several entries with block lengths 0/2/3/250/251/>251, COM_FIELD_LIST default values NULL / empty / >= 251 bytes). phase A' (empty / unrelated configuration): scripted text and binary result sets over such definitions (incl. GEOMETRY and JSON columns), evaluated statements, re-executions, prepared statements that are not executed before a command Acra only relays (COM_PING, COM_INIT_DB, COM_RESET_CONNECTION, COM_STATISTICS, COM_FIELD_LIST), OK packets with info and session state: relay identity of both byte streams. phase B' (table with encrypted columns declared str/bytes/int32/int64 by data_type or data_type_db_identifier, so that Acra re-describes result columns and placeholders): text and binary result sets and prepare responses scripted at the database; every delivered definition re-parses under the negotiated capabilities, keeps catalog..org_name, the extended type info block with its length prefix and the bytes after the fixed part; columns without type configuration byte-identical; rows re-parse against the definitions the client holds (those of the prepare response when metadata is skipped), field counts, NULL markers and unconfigured fields kept"
 	rng := gen.New(r.Seed, "c12-mysql-caps")
-	nA := r.Pick(36, 700)
+	nA := r.Pick(36, 300)
 	for n := 0; n < nA; n++ {
 		srng := gen.New(r.Seed, fmt.Sprintf("c12my-ca-%d-%d", n, rng.Int63()))
 		if only >= 0 && only != 3000+n {
@@ -1262,7 +1323,7 @@ func capsLayer(r *ev.Run, only int) {
 		capsRelaySession(r, srng, 3000+n, n)
 	}
 	r.Extra("mysql_caps_phase_a_wall_s", time.Since(t0).Seconds())
-	nB := r.Pick(36, 700)
+	nB := r.Pick(36, 300)
 	for n := 0; n < nB; n++ {
 		srng := gen.New(r.Seed, fmt.Sprintf("c12my-cb-%d-%d", n, rng.Int63()))
 		if only >= 0 && only != 5000+n {
@@ -1270,4 +1331,15 @@ func capsLayer(r *ev.Run, only int) {
 		}
 		capsShapeSession(r, srng, 5000+n, n)
 	}
+	if only >= 0 {
+		return
+	}
+	r.RequireAtLeast("mysql_caps_relay_sessions_byte_identical", 12)
+	r.RequireSetAtLeast("mysql_caps_profiles_relayed", 10)
+	r.RequireSetAtLeast("mysql_caps_login_layouts_relayed", 10)
+	r.RequireSetAtLeast("mysql_caps_metadata_classes_relayed", 15)
+	r.RequireAtLeast("mysql_caps_definitions_rewritten_with_nonempty_extended_type_info", 40)
+	r.RequireAtLeast("mysql_caps_definitions_rewritten_with_long_names", 15)
+	r.RequireAtLeast("mysql_caps_rows_parsed_against_delivered_definitions", 100)
+	r.RequireAtLeast("mysql_caps_shape_result_sets_without_metadata", 3)
 }
